@@ -15,7 +15,7 @@ def project(raw):
 
 def campaign(c):
     c.rule = RULE
-    kinds = ['tcp', 'udp', 'unicast', 'broadcast', 'dnshost', 'icmp', 'frag', 'tunnel', 'datagram']
+    kinds = ['tcp', 'udp', 'unicast', 'broadcast', 'dnshost', 'icmp', 'frag', 'tunnel', 'datagram', 'tunbc']
     n = 120 if c.quick else 2500
     for i in range(n):
         seed = c.rng.fork('c18-%d' % i)
